@@ -244,7 +244,7 @@ def systematic(ctx, conf, tmpdir):
             return P.run_pipeline(case, data, tmpdir, strategy=strat)
 
         ok = True
-        for devs, strat, res in SY.enumerate_schedules(run_fn, conf["systematic_deviations"], ctx.out_of_time):
+        for devs, strat, res in SY.enumerate_schedules(run_fn, conf["systematic_deviations"], (lambda: ctx.phase_over(0.85))):
             s = res.sched
             ctx.case(stable_hash(["sys", case["v"], observers, case["saver"], s.decisions]), bool(data))
             ctx.count("systematic_schedules")
@@ -512,7 +512,13 @@ def run_shard(ctx):
         for i in range(conf["runs"]):
             case = shape_case(rng, P.random_pipeline_case(rng, max_windows=30, want_saver=(i % 4 != 3), allow_hop=True))
             one(ctx, case, tmpdir)
-            if ctx.out_of_time():
+            if ctx.phase_over(0.35):
+                break
+        rng = ctx.rng("lines")
+        for i in range(conf["line_runs"]):
+            case = shape_case(rng, P.random_pipeline_case(rng, max_windows=16 if i % 4 == 0 else 9, want_saver=True, line_mode=(True, "instr", "all", "instr")[i % 4]))
+            one(ctx, case, tmpdir)
+            if ctx.phase_over(0.55):
                 break
         if ctx.shard == 1 or (ctx.tier == "thorough" and ctx.shard < 6):
             huge_backlog(ctx, tmpdir)
@@ -526,12 +532,6 @@ def run_shard(ctx):
                 big_audio(ctx, tmpdir)
         systematic(ctx, conf, tmpdir)
         stress(ctx, conf, tmpdir)
-        rng = ctx.rng("lines")
-        for i in range(conf["line_runs"]):
-            case = shape_case(rng, P.random_pipeline_case(rng, max_windows=16 if i % 4 == 0 else 9, want_saver=True, line_mode=(True, "instr", "all", "instr")[i % 4]))
-            one(ctx, case, tmpdir)
-            if ctx.out_of_time():
-                break
     finally:
         shutil.rmtree(tmpdir, ignore_errors=True)
 
